@@ -38,10 +38,13 @@ import (
 // keys below gc/safe_point/service/ that the model numbers; the numbering is the byte order of the keys
 var keyNum = map[string]int64{"a1": -20, "a1/sub": -15, "b2": -10, "gc_worker": 0, "h4": 10, "q9": 15, "z5": 20}
 
-// ids whose text is not one of the numbered keys get text numbers 100+
-var oddIDs = []string{"..", "x/../gc_worker", "x/../h4", "../x", "h4/", "../service/b2", "../../gc/safe_point"}
+// ids that are not a single clean path element get text numbers 100+ (checkServiceID refuses them since the fix)
+var oddIDs = []string{"..", "x/../gc_worker", "x/../h4", "../x", "h4/", "../service/b2", "../../gc/safe_point", "a1/sub"}
 
-var cleanIDs = []string{"a1", "b2", "h4", "z5", "a1/sub", "q9"}
+var cleanIDs = []string{"a1", "b2", "h4", "z5", "q9"}
+
+// singleElem is the driver's own statement of which ids are one path element
+func singleElem(id string) bool { return !strings.Contains(id, "/") && id != "." && id != ".." }
 
 func textOf(id string) string {
 	switch id {
@@ -50,7 +53,7 @@ func textOf(id string) string {
 	case "":
 		return "TEmpty"
 	}
-	if n, ok := keyNum[id]; ok {
+	if n, ok := keyNum[id]; ok && singleElem(id) {
 		return "(TName " + coqfmt.Z(n) + ")"
 	}
 	for i, s := range oddIDs {
@@ -93,7 +96,7 @@ func isClean(id string) bool {
 		return true
 	}
 	n, ok := keyNum[id]
-	return ok && keyOf(id) == "(KSvc "+coqfmt.Z(n)+")"
+	return ok && singleElem(id) && keyOf(id) == "(KSvc "+coqfmt.Z(n)+")"
 }
 
 // ---------- operations ----------
@@ -144,6 +147,7 @@ type thread struct {
 	who   string
 	done  chan result
 	state int // 0 idle, 1 parked before SaveGCSafePoint, 2 blocked (neither parked nor done)
+	auto  bool // a complete (upd) request that was blocked: it is parked at its save when it gets through, then finished at once
 }
 
 type world struct {
@@ -227,6 +231,8 @@ func (w *world) await(t int) string {
 			panic("request neither parked nor finished and nothing is parked")
 		}
 		x.state = 2
+		// when it gets through the mutex it must not touch the store before the driver has looked: park it at its save
+		w.b.Arm(x.who, isGcSave, kvx15.Park)
 		return "BBlocked"
 	}
 }
@@ -300,7 +306,9 @@ func (w *world) exec(o *op) string {
 	switch o.K {
 	case "upd":
 		w.start(o.T, o.V, false)
-		return w.await(o.T)
+		ob := w.await(o.T)
+		w.thr[o.T].auto = ob == "BBlocked"
+		return ob
 	case "begin":
 		w.start(o.T, o.V, true)
 		return w.await(o.T)
@@ -438,6 +446,12 @@ func (w *world) wakeBlocked(c *caseRec) {
 				c.Ops = append(c.Ops, op{K: "wake", T: t})
 				c.Obs = append(c.Obs, "("+ob+", "+w.view()+")")
 				progressed = true
+				if x.auto {
+					x.auto = false
+					if x.state == 1 {
+						w.step(c, op{K: "finish", T: t}) // the complete request goes on; this wakes the next one in turn
+					}
+				}
 				break
 			}
 		}
@@ -680,11 +694,7 @@ func (w *world) genCase(r *rng.R, kind int, maxOps int, lockedMode bool) caseRec
 				w.step(&c, op{K: "svc", ID: pickID(r, odd), TTL: pickTTL(r), SP: pickSP(r)})
 			case 2:
 				// the router only lets a single clean path element through as {service_id}
-				id := pickID(r, 0)
-				if id == "a1/sub" {
-					id = "a1"
-				}
-				w.step(&c, op{K: "apidel", ID: id})
+				w.step(&c, op{K: "apidel", ID: pickID(r, 0)})
 			default:
 				w.step(&c, op{K: "get"})
 			}
@@ -884,7 +894,7 @@ func main() {
 				for _, ob := range c.Obs {
 					if strings.HasPrefix(ob, "(BBlocked") {
 						lockedMode = true
-						blockWait = 300 * time.Millisecond
+						blockWait = 100 * time.Millisecond
 						R.Notes = append(R.Notes, "UpdateGCSafePoint requests are serialised on this tree (a second request blocked while one was parked)")
 					}
 				}
